@@ -134,6 +134,17 @@ def rule_R1(ctx, f):
                     tests["metric"] = rejecting(c, be[1])
                 if is_call(src, ["MetricFamily::name", "get_name"]) and peel(src[2][0]) == P(1):
                     tests["name"] = rejecting(c, be[1])
+            if be and be[0][0] == "binop" and be[0][1] in ("Eq", "Ne"):
+                # `x.len() == 0`
+                lens = [z for z in (be[0][2], be[0][3]) if is_call(peel(z), ["slice::len", "Vec::len", "str::len", "String::len"])]
+                zeros = [z for z in (be[0][2], be[0][3]) if const_int(z) == 0]
+                if len(lens) == 1 and len(zeros) == 1:
+                    src = peel(peel(lens[0])[2][0])
+                    edge = be[1] if be[0][1] == "Eq" else be[2]
+                    if is_call(src, ["get_metric"]) and peel(src[2][0]) == P(1):
+                        tests["metric"] = rejecting(c, edge)
+                    if is_call(src, ["MetricFamily::name", "get_name"]) and peel(src[2][0]) == P(1):
+                        tests["name"] = rejecting(c, edge)
         ctx.ob(rid, "check_metric_family|rejects", tests == {"metric": True, "name": True}, "a family without samples or without a name must be refused (found %s)" % tests, site=c.raw["span"]["at"])
 
 
